@@ -364,6 +364,14 @@ func (task *Task) Converge() error {
 		if err != nil {
 			return fmt.Errorf("getting latest from task: %w", err)
 		}
+		if reorgs > 0 {
+			// The position fell back to the previous recorded one.
+			// With a batch size > 1 that is several blocks back:
+			// the rows in between have to be removed as well.
+			if err := task.dests[0].Delete(task.ctx, pgtx, localNum+1); err != nil {
+				return fmt.Errorf("deleting rows after %d during reorg: %w", localNum, err)
+			}
+		}
 		if task.stop > 0 && localNum >= task.stop {
 			return ErrDone
 		}
